@@ -70,6 +70,8 @@ func rulesC06(c *Ctx) {
 	R.Rule("R1", "every panic site reachable from a route handler is discharged", 40)
 	R.Rule("R2", "validation precedes mutation in swap/melt; mint op: only the PENDING marker before validation and every rejection reverts", 6)
 	R.Rule("R3", "decode error => no operation call; every handler path writes one response", 20)
+	R.Rule("R4", "what the pre-checks test is what storage enforces: the statements on the spent, pending and signature tables bind each column to its own unmodified value (a key stored under a transformed form - lower-cased, trimmed - lets two requests that pass the duplicate checks collide on the key after the inputs were spent; shared with C15.R5)", 10)
+	c.ruleSQLAgreement("R4", map[string]bool{"proofs": true, "pending_proofs": true, "blind_signatures": true})
 	c.vocabProblems("R1")
 	scope := c.handlerScope()
 	R.Analysed["functions_in_handler_scope"] = len(scope)
